@@ -49,16 +49,35 @@ public:
 #ifdef VERIF_FRAME_ARENA
     /* identity = base kind * 2 + CONSTANT flag */
     static type_t create_primitive(kind_t k, position_t = position_t()) { return type_t((int)k * 2); }
+#ifdef VERIF_TYPE_PREFIX_FLAGS
+    /* C04: additionally the URGENT / COMMITTED prefixes, as bits 20 / 21 above the base identity */
+    bool is(kind_t k) const
+    {
+        if (k == Constants::CONSTANT) return (id & 1) != 0;
+        if (k == Constants::URGENT) return ((id >> 20) & 1) != 0;
+        if (k == Constants::COMMITTED) return ((id >> 21) & 1) != 0;
+        return ((id & 0xFFFFF) >> 1) == (int)k;
+    }
+    type_t create_prefix(kind_t k, position_t = position_t()) const
+    {
+        __CPROVER_assert(k == Constants::CONSTANT || k == Constants::URGENT || k == Constants::COMMITTED, "stub: only the CONSTANT, URGENT and COMMITTED prefixes are modelled");
+        return type_t(id | (k == Constants::CONSTANT ? 1 : k == Constants::URGENT ? (1 << 20) : (1 << 21)));
+    }
+    bool is_branchpoint() const { return is(Constants::BRANCHPOINT); }
+#define VERIF_BASE_KIND(id) (((id) & 0xFFFFF) >> 1)
+#else
+#define VERIF_BASE_KIND(id) ((id) >> 1)
     bool is(kind_t k) const { return k == Constants::CONSTANT ? (id & 1) != 0 : (id >> 1) == (int)k; }
     type_t create_prefix(kind_t k) const { __CPROVER_assert(k == Constants::CONSTANT, "stub: only the CONSTANT prefix is modelled"); return type_t(id | 1); }
+#endif
 #ifdef VERIF_TYPE_PREDS
 #include "type_preds.inc" /* REAL: the inline predicates of include/utap/type.h (is_integer() ... is_formula()) */
 #else
-    bool is_integer() const { return (id >> 1) == (int)Constants::INT; }
-    bool is_scalar() const { return (id >> 1) == (int)Constants::SCALAR; }
-    bool is_location() const { return (id >> 1) == (int)Constants::LOCATION; }
-    bool is_record() const { return (id >> 1) == (int)Constants::RECORD; }
-    bool is_process() const { return (id >> 1) == (int)Constants::PROCESS; }
+    bool is_integer() const { return VERIF_BASE_KIND(id) == (int)Constants::INT; }
+    bool is_scalar() const { return VERIF_BASE_KIND(id) == (int)Constants::SCALAR; }
+    bool is_location() const { return VERIF_BASE_KIND(id) == (int)Constants::LOCATION; }
+    bool is_record() const { return VERIF_BASE_KIND(id) == (int)Constants::RECORD; }
+    bool is_process() const { return VERIF_BASE_KIND(id) == (int)Constants::PROCESS; }
 #endif
 #ifdef VERIF_TYPE_PROCESS
     /* C07: the members of a process/record type, and types derived from a member type by rename / subst, live in ghost
@@ -105,6 +124,7 @@ public:
     verif_name get_name() const { __CPROVER_assert(id >= 0 && id < VERIF_NSYMS, "stub: symbol id in range"); return verif_symtab[id].name; }
     type_t get_type() const { __CPROVER_assert(id >= 0 && id < VERIF_NSYMS, "stub: symbol id in range"); return type_t(verif_symtab[id].type); }
     void* get_data() const { return verif_symtab[id].user; }
+    void set_type(type_t t) { __CPROVER_assert(id >= 0 && id < VERIF_NSYMS, "stub: symbol id in range"); verif_symtab[id].type = t.id; }
 #else
     int get_name() const { return id; }  /* names are identities here */
     type_t get_type() const { return type_t(2000 + id); }
@@ -200,6 +220,12 @@ inline int verif_tid(const int32_t&) { return 0; }
 inline int verif_tid(const synchronisation_t&) { return 1; }
 inline int verif_tid(const double&) { return 2; }
 inline int verif_tid(const StringIndex&) { return 3; }
+/* <type_traits> on the four alternatives of the value variant (rule L6): tid 0 int32_t, 1 synchronisation_t (an enum:
+   not arithmetic), 2 double, 3 StringIndex */
+template <typename A> inline bool verif_is_arithmetic(const A& a) { return verif_tid(a) == 0 || verif_tid(a) == 2; }
+template <typename A> inline bool verif_is_integral(const A& a) { return verif_tid(a) == 0; }
+template <typename A> inline bool verif_is_floating_point(const A& a) { return verif_tid(a) == 2; }
+template <typename A> inline bool verif_is_enum(const A& a) { return verif_tid(a) == 1; }
 /* std::is_same_v<T1, T2> for the four alternatives of the variant */
 template <typename A, typename B>
 inline bool verif_same_type(const A& a, const B& b) { return verif_tid(a) == verif_tid(b); }
